@@ -469,6 +469,34 @@ class _StubRpcError(grpc.RpcError):
 
 EXC_TYPES['RpcError'] = _StubRpcError
 
+# Shapes of the text an algorithm's exception may carry (exception texts are
+# arbitrary: empty for a bare `assert` / `NotImplementedError()`, kilobytes of
+# traceback, localised non-ASCII text). spec = None | ['empty'] | ['ascii', n] |
+# ['utf8', ascii_prefix_len, char, n_chars].
+MSG_CHARS = ['\u00e9', '\u6f22', '\U0001f642']
+
+
+def gen_msg_spec(rng):
+  r = rng.random()
+  if r < 0.5:
+    return None
+  if r < 0.65:
+    return ['empty']
+  if r < 0.75:
+    return ['ascii', rng.choice([200, 1100, 5000])]
+  return ['utf8', rng.randint(0, 4), rng.choice(MSG_CHARS), rng.choice([300, 600, 1500])]
+
+
+def fault_exception(name, default_text, spec=None):
+  cls = EXC_TYPES[name]
+  if not spec:
+    return cls(default_text)
+  if spec[0] == 'empty':
+    return cls()
+  if spec[0] == 'ascii':
+    return cls('E' * int(spec[1]))
+  return cls('x' * int(spec[1]) + spec[2] * int(spec[3]))
+
 
 class StubPolicy(pythia.Policy):
   """Deterministic algorithm with state persisted in study metadata."""
@@ -493,7 +521,7 @@ class StubPolicy(pythia.Policy):
     with self._c.lock:
       self._c.log.append(rec)
     if entry.get('raise'):
-      raise EXC_TYPES[entry['raise']](f'injected {entry["raise"]}')
+      raise fault_exception(entry['raise'], f'injected {entry["raise"]}', entry.get('msg'))
     k = max(0, request.count + int(entry.get('delta', 0)))
     suggestions = []
     for i in range(k):
@@ -513,7 +541,7 @@ class StubPolicy(pythia.Policy):
     with self._c.lock:
       self._c.log.append({'kind': 'early_stop', 'trial_ids': sorted(request.trial_ids or [])})
     if entry.get('raise'):
-      raise EXC_TYPES[entry['raise']](f'injected {entry["raise"]}')
+      raise fault_exception(entry['raise'], f'injected {entry["raise"]}', entry.get('msg'))
     decisions = [pythia.EarlyStopDecision(id=t, reason='stub', should_stop=bool(entry.get('stop')))
                  for t in sorted(request.trial_ids or [])]
     return pythia.EarlyStopDecisions(decisions, vz.MetadataDelta())
@@ -547,7 +575,8 @@ class HarnessPolicyFactory(pythia.PolicyFactory):
       self._c.factory_fault_log.append(f)
       # the algorithm cannot even be built: the exception keeps its own type
       # (PythiaServicer only wraps what policy.suggest() raises)
-      raise EXC_TYPES[f['raise']](f'injected {f["raise"]} while building the policy ({f.get("site")})')
+      raise fault_exception(f['raise'], f'injected {f["raise"]} while building the policy ({f.get("site")})',
+                            f.get('msg'))
     if algorithm == STUB or study_algo == STUB:
       return StubPolicy(self._c, policy_supporter, problem_statement, study_name)
     if algorithm == 'RANDOM_SEARCH' and study_name in self._c.stub_studies:
